@@ -43,6 +43,10 @@ class Result:
         self.samples = []
         self.inconclusive = []
         self.sets = {}
+        self.enumerated = 0  # distinct-by-construction cases (exhaustive enumerations), not hashed
+
+    def case_count(self, n=1):
+        self.enumerated += n
 
     def ev(self, n=1):
         self.evaluations += n
@@ -77,6 +81,7 @@ class Result:
             "samples": self.samples,
             "inconclusive": self.inconclusive,
             "sets": {k: sorted(v, key=str) for k, v in self.sets.items()},
+            "enumerated": self.enumerated,
         }
 
     def merge(self, d):
@@ -89,6 +94,7 @@ class Result:
             if len(self.samples) < 12:
                 self.samples.append(s)
         self.inconclusive.extend(d["inconclusive"])
+        self.enumerated += d.get("enumerated", 0)
         for k, v in d.get("sets", {}).items():
             self.sets.setdefault(k, set()).update(
                 tuple(x) if isinstance(x, list) else x for x in v
@@ -236,8 +242,9 @@ def conclude(pid, tier, seed, res, lost, t0, rule, assumptions, extra=None,
         reasons.append("%d of %d shards lost" % (len(lost), nshards))
     if res.evaluations == 0:
         reasons.append("no oracle evaluation happened")
-    if len(res.cases) < min_cases:
-        reasons.append("only %d distinct non-trivial cases" % len(res.cases))
+    ncases = len(res.cases) + res.enumerated
+    if ncases < min_cases:
+        reasons.append("only %d distinct non-trivial cases" % ncases)
     for name, minimum in (need or {}).items():
         if res.counters.get(name, 0) < minimum:
             reasons.append("monitor '%s' reached %d times (< %d)"
@@ -261,7 +268,9 @@ def conclude(pid, tier, seed, res, lost, t0, rule, assumptions, extra=None,
 
     cov = {
         "evaluations": int(res.evaluations),
-        "distinct_nontrivial": len(res.cases),
+        "distinct_nontrivial": ncases,
+        "distinct_nontrivial_hashed": len(res.cases),
+        "distinct_nontrivial_enumerated": res.enumerated,
         "rule": rule,
         "samples": res.samples[:12] or ["<none>"],
         "counters": dict(sorted(res.counters.items())),
@@ -294,7 +303,7 @@ def conclude(pid, tier, seed, res, lost, t0, rule, assumptions, extra=None,
         json.dump(evidence, f, indent=1, default=str)
 
     print("%s tier=%s seed=%s evaluations=%d distinct_nontrivial=%d wall=%.0fs"
-          % (pid, tier, seed, res.evaluations, len(res.cases), time.time() - t0))
+          % (pid, tier, seed, res.evaluations, ncases, time.time() - t0))
     for k in sorted(res.counters):
         print("  counter %-40s %d" % (k, res.counters[k]))
     for k, v in res.sets.items():
